@@ -34,6 +34,7 @@ type Class struct {
 	ErrTy        string   // "" = the predeclared error; else a key of ErrTypes used in place of `error` …
 	ErrAt        string   // … "result": last result of the (first) stage function; "arg": the error VALUE given to join / toerror
 	Rn           []string // names of the results of the function under test (nil: unnamed); toerror: the bool included
+	TupleClash   []int    // fmape: the package also calls deriveTuple on values of these types (assignable to, not identical with, f's results)
 	Import       string   // import path the package's own file needs (for the argument expression only)
 	ErrExpr      string   // toerror: Go source of the supplied error value (error number 0) when it is not errOf(…)
 	Twin         bool     // a SECOND call site of the same derive function: same types, parameter names in another order
@@ -149,6 +150,9 @@ func (c *Class) sigWire() string {
 		sb.WriteString(")")
 		return sb.String()
 	case "fmape", "traverse":
+		if len(c.TupleClash) > 0 {
+			return wireTys("in", []int{c.In}) + " " + wireTys("outs", c.Outs) + " (tupleclash 1)"
+		}
 		return wireTys("in", []int{c.In}) + " " + wireTys("outs", c.Outs)
 	case "bind":
 		sp := 0
@@ -216,6 +220,9 @@ func (c *Class) goSig() string {
 		}
 		return "deriveCompose(" + strings.Join(fs, ", ") + ")"
 	case "fmape":
+		if len(c.TupleClash) > 0 {
+			return "deriveFmap(" + sig(unnamed([]int{c.In}), c.Outs, "") + ", " + sig(nil, []int{c.In}, "error") + ") next to deriveTuple(" + goParams(unnamed(c.TupleClash)) + ")"
+		}
 		return "deriveFmap(" + sig(unnamed([]int{c.In}), c.Outs, "") + ", " + sig(nil, []int{c.In}, "error") + ")"
 	case "joine":
 		return "deriveJoin(" + sig(nil, c.Outs, "error") + ", error)"
@@ -548,6 +555,10 @@ func (c *Class) source() string {
 		runFn(fmt.Sprintf("\tw := deriveCompose(%s)\n", strings.Join(names, ", ")), append(rvars(len(last)), "err"),
 			fmt.Sprintf("w(%s)", strings.Join(mkArgs(c.Ins, 0), ", ")), "outcomeE("+obsVars(last)+", err)")
 	case "fmape":
+		if len(c.TupleClash) > 0 {
+			w("// a user's own tuple of types that are assignable to, but not identical with, F's results\nvar UserTuple = deriveTuple(%s)\n\n", strings.Join(mkArgs(c.TupleClash, 0), ", "))
+			w("var a = []int{1, 2, 3}\n\n")
+		}
 		w("func G()%s {\n\ta := []int{}\n\tlogStage(0, a)\n\treturn mk%d(hh(0, 0, a)), %s\n}\n\n", goResults([]int{c.In}, c.errGo("result")), c.In, c.errRet(0, true))
 		w("func F(x0 %s)%s {\n\ta := %s\n\tlogStage(1, a)\n", Types[c.In].Go, goResults(c.Outs, ""), obsList([]int{c.In}, 0))
 		if len(c.Outs) > 0 {
